@@ -222,7 +222,9 @@ CLAIMED = {
        "unaligned writeSize/writeInt64); arbitrary object graphs incl. sharing and cycles are restored as the same graph "
        "up to an injective pointer->pool-index renaming; a stream with another level is rejected. Store/load operation "
        "lists of all 79 serialize methods, 5 helper pairs and 28 XTemplateSerializer pairs are regenerated from the source "
-       "and proved symmetric by decide; symmetric straight-line lists are proved to round-trip.",
+       "and proved symmetric by decide; symmetric straight-line lists are proved to round-trip. DatatypeValidator::storeDV/loadDV: the "is a built-in" decision is the identity test as extracted from the source, and for every registry state a stored reference is "
+       "restored as the shared built-in iff it IS that built-in - a user type whose local name equals a built-in's comes back as its own copy "
+       "(dv_reference_identity; dv_name_test_unsound is the witness for the name test).",
   note="PARTIAL: the pool round trip (grammar/XSModel dumps, verdicts, error-code multisets, defaulted attributes, type "
        "names for generated DTD/XSD + instances on original vs restored vs re-restored pool, level-field corruption) relates "
        "two runs of the implementation and has no model. Symmetry is about extracted op lists (translator trusted, "
@@ -243,7 +245,10 @@ CLAIMED = {
        "ensureValidString accepts exactly the legal XML 1.0 strings and the generated XMLChar tables are the Char productions "
        "(ensureValid_iff_legal); an element with attributes and text serialises to a form whose values re-parse to the originals, "
        "re-serialises identically, and ill-formed strings are refused (serialize_content_reparses / _idempotent / _refuses_illformed). "
-       "Negations proved with witnesses for the current code: xml11_eol_not_escaped (F9), cdata_asis_loses_terminator (F8), "
+       "Namespace fix-up (XV.Model.NsFixup, API-built trees): isNamespaceBindingActive = innermost-declaration resolution of "
+       "Namespaces in XML (nsfixup_innermost_wins), after the fix-up of an element every prefix it uses resolves to the namespace it "
+       "was built with, for every enclosing scope stack, i.e. every shadowing pattern (nsfixup_binds_all), nothing in force is "
+       "re-declared (nsfixup_no_redundant_declaration). Negations proved with witnesses for the current code: xml11_eol_not_escaped (F9), cdata_asis_loses_terminator (F8), "
        "formatter_hangs_on_trailing_high_surrogate (F14), bestfit_breaks_wellformedness, serializer_emits_illformed. Tied to the code by "
        "(a) XMLFormatter vs model on every escape mode x unrep mode x 8 encodings x XML 1.0/1.1, (b) DOMLSSerializer vs tree model, and "
        "(c) the property itself judged without the model: API-built and parsed trees x 11 encodings x feature sets x versions are "
@@ -267,7 +272,11 @@ CLAIMED = {
        "inside the buffer (tables checked by the kernel), replaceTokens overrun for other texts exhibited; (d) ReaderMgr ownership ledger: "
        "every created reader / adopted entity deleted exactly once after reset+destroy for all op sequences, never popped below the base "
        "reader, recursion refused; (e) entity-expansion work bound |doc| + L*maxLen with termination; DOM heap sub-allocation and the UCS-4 BOM "
-       "loop as conditional theorems with negative witnesses. Tied to the code by the translator, by direct correspondence on the exported "
+       "loop as conditional theorems with negative witnesses; (f) AbstractDOMParser: every member that is a raw pointer into the document under "
+       "construction (fCurrentParent, fCurrentNode, fCurrentEntity, fDocument, fDocumentType - member list and assignments regenerated from the "
+       "source, Gen/DomParserFields) is nulled in the call closure of reset(), reset() is reached from resetDocument()/parseReset() and every "
+       "scanner's scanReset, hence no such member points into a released document after reset (domParser_reset_complete, _reached, "
+       "_no_stale_pointer_after_reset, _nonvacuous; textual and path-insensitive). Tied to the code by the translator, by direct correspondence on the exported "
        "classes (XMLBuffer, ElemStack, ValueVectorOf, RangeToken, DOMBuffer, XMLString::replaceTokens, ReaderMgr with an allocation counter, "
        "character references through real parses judged by XML 1.0) and by witness runs for every fact a conditional theorem depends on.",
   note="NOT proved: memory safety of the parser as a whole. Use-after-free / overflow outside the modelled functions is only searched for: "
@@ -278,7 +287,9 @@ CLAIMED = {
        "allocator exhaustion, stack depth, IEEE-754 exactness of cap*1.25 (assumed below 2^50), sizes beyond the stated no-wrap bounds, ICU/iconv "
        "message catalogues, file/network accessors and the XMLReader byte/char windows (C04) are not covered. continue-after-fatal is searched in a "
        "separate stream and only listed. Trusted: Lean kernel + propext/Classical.choice/Quot.sound; translator patterns; harnesses, generators, "
-       "classifier; ASan/UBSan as detector.",
+       "classifier; ASan/UBSan as detector. Reused-parser tier: one parser object of each kind over sequences of 2-6 documents (entities, external "
+       "subsets/PEs with and without text declarations, XInclude, 1.1, UTF-16, schema) with between-document actions {nothing, resetDocumentPool, "
+       "adopt+release now/later, feature flips, abandoned progressive parse}, minimised by delta debugging.",
   technique="Lean 4 proof over translator-generated constants and code-shaped models + direct correspondence + sanitizer search (model validation / failing-input search)",
   ref="4/C01"),
  "C08": dict(
@@ -287,8 +298,9 @@ CLAIMED = {
        "(ranges as bounded repetition, all = permutations of a selection) (pMatch_iff); the code-shaped ComplexTypeInfo::expandContentModel / "
        "convertContentSpecTree with the compact-syntax condition useRepeatingLeafNodes && !hasRepeatedLeaf preserve that language for every "
        "Particle-Correct range, compact Loop syntax included (expand_preserves, convert_preserves), and chain to the C07 DFA model "
-       "(expand_dfa_iff); the schema-mode DFAContentModel model with counting states accepts exactly the particle language whenever no "
-       "Loop node is produced (counting_eq_unrolled_partial); AllContentModel (ctor + validateContent) accepts exactly the permutations "
+       "(expand_dfa_iff); the schema-mode DFAContentModel model with counting states (fCountingStates / handleRepetitions) accepts exactly "
+       "the particle language for EVERY Particle-Correct tree without an all-group, Loop (repeating-leaf) conversion included "
+       "(counting_eq_unrolled: validateTree s pi = ok <-> PLang s pi; all-groups go to AllContentModel, all_iff_permutation); AllContentModel (ctor + validateContent) accepts exactly the permutations "
        "(all_iff_permutation, all_ctor); the wildcard namespace tests equal Structures 3.10.4 (wildcard_spec); "
        "SubstitutionGroupComparator::isEquivalentTo equals 3.3.6 (substitution_closure_spec); the schema part of buildAttList (repaired: a "
        "prohibited use admitted by the wildcard is no use) equals the attribute-use rules for every use set with distinct names "
@@ -298,9 +310,7 @@ CLAIMED = {
        "attribute groups, extension/restriction, substitution groups, wildcards, xsi:type, xsi:nil), instances (exhaustive child sequences, "
        "valid-by-construction, single-rule mutations) validated under {IG,SG}x{DOM,SAX2}x{full checking on/off}; verdict, PSVI type names, "
        "defaulted attributes and element defaults judged by the executable Lean Spec; schemas violating component constraints must be reported at load.",
-  note="PARTIAL: counting_eq_unrolled is proved only when the conversion yields no Loop node (counting_eq_unrolled_partial); for trees converted "
-       "WITH Loop nodes (all leaves pairwise different since fix d7e638c) it is believed true but not proved - covered by the exhaustive "
-       "correspondence only (counting_repaired_witness records the repaired defect); validElem_iff is replaced by validElem_iff_partial / "
+  note="PARTIAL: validElem_iff is replaced by validElem_iff_partial / "
        "validDoc_root (meaning of an empty violation list of the executable Spec) - scanStartTag / validateElement / checkContent have no "
        "code-shaped model and are covered by the document-tier correspondence only; UPA and particle-derivation checking: decision table for the "
        "generated families in tools/props/c08*.py; TraverseSchema not modelled (component model + renderXsd trusted); simple types opaque (C09). "
